@@ -4,7 +4,8 @@
 set -u
 D=$1; N=$2; LOG=$3
 WT=/tmp/wt_confirm_$$
-git -C /repo worktree add -q $WT HEAD || exit 9
+git -C /repo worktree add -q --detach $WT HEAD || exit 9
+cp -r /repo/target $WT/target 2>/dev/null
 cd $WT
 export CARGO_NET_OFFLINE=true
 demo_dst=tests/seeded_demo_$N.rs
